@@ -133,13 +133,24 @@ let review_line line = match al (sx_parse line) with
     Printf.sprintf "%d %d|%s" (int_of_nat ap) (int_of_nat sk) (p_doc d')
   | _ -> "ERR"
 let acceptall_line line = p_doc (accept_all_doc (to_doc (sx_parse line)))
+(* (doc author ts ((target new comment idx) ...) (oracle ...)) -> "applied skipped outside|doc" *)
+let edits_line line = match al (sx_parse line) with
+  | [d; au; ts; L eds; L orc] ->
+    let eds = List.map (fun e -> match al e with
+      | [t; n; c; i] -> { ed_target = to_str t; ed_new = to_str n; ed_comment = to_str c;
+                          ed_index = (match al i with [] -> None | [A 1; A k] -> Some (nat_of_int k) | _ -> failwith "idx") }
+      | _ -> failwith "edit") eds in
+    let orc = List.map (fun o -> match al o with [] -> None | [A a; A b] -> Some (nat_of_int a, nat_of_int b) | _ -> failwith "orc") orc in
+    let (((d', ap), sk), out) = apply_edits (to_doc d) (to_str au) (to_str ts) eds orc in
+    Printf.sprintf "%d %d %d|%s" (int_of_nat ap) (int_of_nat sk) (if out then 1 else 0) (p_doc d')
+  | _ -> "ERR"
 let extract_line line = match al (sx_parse line) with
   | [A c; d] -> show (extract_u (c <> 0) (to_doc d))
   | _ -> "ERR"
 
 let () =
   let f = match Sys.argv.(1) with
-    | "trim" -> trimu_line | "trim_ascii" -> trim_line | "tokens" -> tokens_line | "spans" -> spans_line | "nspans" -> nspans_line | "normalize" -> norm_line | "review" -> review_line | "acceptall" -> acceptall_line | "extract" -> extract_line | "diff" -> diff_line | "markup" -> markup_line
+    | "trim" -> trimu_line | "trim_ascii" -> trim_line | "tokens" -> tokens_line | "spans" -> spans_line | "nspans" -> nspans_line | "normalize" -> norm_line | "review" -> review_line | "edits" -> edits_line | "acceptall" -> acceptall_line | "extract" -> extract_line | "diff" -> diff_line | "markup" -> markup_line
     | m -> failwith ("mode " ^ m) in
   try while true do
     let line = input_line stdin in
